@@ -688,12 +688,19 @@ func runParent(spec Spec, tier string, seed int64, bins, replay string) int {
 
 	// known findings
 	var known []knownFinding
-	if b, err := os.ReadFile(filepath.Join(vd, "known_findings.json")); err == nil {
+	kfFiles := []string{filepath.Join(vd, "known_findings.json")}
+	more, _ := filepath.Glob(filepath.Join(vd, "known_findings.d", "*.json"))
+	kfFiles = append(kfFiles, more...)
+	for _, kf := range kfFiles {
+		b, err := os.ReadFile(kf)
+		if err != nil {
+			continue
+		}
 		var f struct {
 			Findings []knownFinding `json:"findings"`
 		}
 		if err := json.Unmarshal(b, &f); err != nil {
-			fmt.Fprintln(os.Stderr, "known_findings.json:", err)
+			fmt.Fprintln(os.Stderr, kf+":", err)
 			return 2
 		}
 		for _, k := range f.Findings {
@@ -1024,6 +1031,33 @@ func crashInRepo(s string) string {
 		}
 		if m := frameRe.FindStringSubmatch(l); m != nil {
 			return shortFn(m[1])
+		}
+	}
+	return ""
+}
+
+// Catch runs fn and returns the recovered panic value (nil if none) and its stack.
+func Catch(fn func()) (pv any, stack string) {
+	defer func() {
+		if r := recover(); r != nil {
+			pv = r
+			stack = string(debug.Stack())
+		}
+	}()
+	fn()
+	return nil, ""
+}
+
+// PanicSite returns the innermost repository (non-harness) frame of a stack produced by Catch, e.g.
+// "pdata/plog.LogRecordSlice.CopyTo", or "" when no repository frame is on the stack.
+func PanicSite(stack string) string {
+	for _, l := range strings.Split(stack, "\n") {
+		l = strings.TrimSpace(l)
+		if strings.Contains(l, "/verifharness/") {
+			continue
+		}
+		if m := frameRe.FindStringSubmatch(l); m != nil {
+			return shortFn(regexp.MustCompile(`\[\.\.\.\]`).ReplaceAllString(m[1], ""))
 		}
 	}
 	return ""
